@@ -148,7 +148,7 @@ var c09Counts = []uint16{0, 1, 2, 255, 256, 65535}
 // C09 — block instructions as whole operations.
 func runC09(c *Ctx) {
 	mon.DiscardStdLog()
-	nops := c.Pick(20000, 400000)
+	nops := c.Pick(20000, 2400000)
 	var mu sync.Mutex
 	var evals, steps, cut, full64k, overlapN, wrapN, nilION, recycledN int64
 	distinct := mon.NewDistinct(2_000_000)
@@ -443,7 +443,7 @@ func runC09(c *Ctx) {
 	// addresses read C7) and a short z80.DumbMemory (addresses beyond the slice read 0 and
 	// ignore writes); whole operations, final registers and memory against the same loop
 	// specification run on a model of that memory
-	nsparse := c.Pick(4000, 80000)
+	nsparse := c.Pick(4000, 400000)
 	var sparseOps int64
 	Parallel(nsparse, func(si int) {
 		defer func() {
